@@ -7,10 +7,10 @@ block.tlb (encoder with both `Either` choices free, decoder `decodeMessage`).  C
 `ops.make` = `end_cell` (may refuse: depth), `ops.view` = bits and refs of a cell; `Lawful` = `view ∘ make = id`,
 `Total` = every cell with at most 1023 bits and 4 refs exists (no depth overflow).
 -/
-import TonVerif.Proofs.MessageRef
+import TonVerif.Proofs.Wrappers
 
 namespace TonVerif.Properties.C15
-open TonVerif TonVerif.Model TonVerif.Spec.Tlb TonVerif.Proofs.Message
+open TonVerif TonVerif.Model TonVerif.Spec.Tlb TonVerif.Proofs.Message TonVerif.Proofs.MsgBits
 
 variable {R : Type}
 
@@ -117,6 +117,313 @@ theorem c15_currency_decodes (ops : CellOps R) (hl : ops.Lawful) (v : Currency R
 
 theorem c15_currency_own_parser (ops : CellOps R) (c : R) (v : Currency R) (h : decodeCurrency ops c = some v) :
     Message.deserializeCurrency ops c = some v := own_parser_currency ops c v h
+
+
+/-! ## the stand-alone wrappers: wallet data, wallet message, hash update, NFT item / sale data
+
+For every wrapper `W` (spec: `Spec/Tlb/Wrappers.lean`, from the contracts' storage layouts; model:
+`Model/Wrappers.lean`, from the Python code) three theorems, as for `StateInit`:
+* `c15_<w>_serialize`   -- `W.serialize` never fails for fields in range and returns the cell of the spec encoding;
+* `c15_<w>_decodes`     -- the spec decoder reads that cell back to the value;
+* `c15_<w>_own_parser`  -- `W.deserialize` returns what the spec decoder returns on EVERY cell the decoder accepts.
+The two half-implemented wrappers (finding F23) get the statements that do hold and a theorem that says exactly
+what does not. -/
+
+/-! ### `WalletV3Data` -/
+
+/-- `WalletV3Data(seqno, wallet_id, public_key).serialize()` with `seqno`, `wallet_id` < 2^32 and a 32-byte key
+never fails and is the 320-bit cell `seqno:uint32 wallet_id:uint32 public_key:bits256`. -/
+theorem c15_wallet_v3_serialize (ops : CellOps R) (ht : ops.Total) (w : WalletV3)
+    (hs : 0 ≤ w.seqno ∧ w.seqno < 2 ^ 32) (hi : 0 ≤ w.walletId ∧ w.walletId < 2 ^ 32)
+    (hk : w.publicKey.length = 32 ∧ Bytes.WF w.publicKey) :
+    ∃ ch : Chunk R, encWalletV3 w = some ch ∧ ch.1.length = 320 ∧ ch.2.length = 0 ∧
+      Message.serializeWalletV3 ops w = ops.make ch.1 ch.2 ∧ (Message.serializeWalletV3 ops w).isSome := by
+  have he : (encWalletV3 w : Enc R) = some (natToBits 32 w.seqno.toNat ++ (natToBits 32 w.walletId.toNat ++ bytesToBits w.publicKey),
+      [] ++ ([] ++ [])) := by
+    simp only [encWalletV3, eUint_of_range 32 _ hs.1 hs.2, eUint_of_range 32 _ hi.1 hi.2, eBytes_of 32 _ hk.1 hk.2, Enc.cat]
+  have hlen : (natToBits 32 w.seqno.toNat ++ (natToBits 32 w.walletId.toNat ++ bytesToBits w.publicKey)).length = 320 := by
+    simp [natToBits_length, bytesToBits_length, hk.1]
+  have hser := cellOf_of_appends ops (appends_walletV3B w) he (by simp [hlen])
+  exact ⟨_, he, hlen, by simp, hser, by rw [Message.serializeWalletV3, hser]; exact ht _ _ (by simp [hlen]) (by simp)⟩
+
+theorem c15_wallet_v3_decodes (ops : CellOps R) (hl : ops.Lawful) (w : WalletV3) {ch : Chunk R} {c : R}
+    (h : encWalletV3 w = some ch) (hc : ops.make ch.1 ch.2 = some c) : decodeWalletV3 ops c = some w :=
+  decode_of_rt ops hl (rt_walletV3 w) h hc
+
+theorem c15_wallet_v3_own_parser (ops : CellOps R) (c : R) (w : WalletV3) (h : decodeWalletV3 ops c = some w) :
+    Message.deserializeWalletV3 ops c = some w := parse_of_ref ops ref_loadWalletV3 h
+
+/-! ### `WalletV4Data` -/
+
+/-- as v3, followed by the plugin dictionary (`Maybe ^Cell`): 321 bits, at most one reference, never fails -/
+theorem c15_wallet_v4_serialize (ops : CellOps R) (ht : ops.Total) (w : WalletV4 R)
+    (hs : 0 ≤ w.seqno ∧ w.seqno < 2 ^ 32) (hi : 0 ≤ w.walletId ∧ w.walletId < 2 ^ 32)
+    (hk : w.publicKey.length = 32 ∧ Bytes.WF w.publicKey) :
+    ∃ ch : Chunk R, encWalletV4 w = some ch ∧ ch.1.length = 321 ∧ ch.2.length ≤ 1 ∧
+      Message.serializeWalletV4 ops w = ops.make ch.1 ch.2 ∧ (Message.serializeWalletV4 ops w).isSome := by
+  obtain ⟨pc, hp, hp1, hp2⟩ := eMaybeRef_some w.plugins
+  have he : encWalletV4 w = some (natToBits 32 w.seqno.toNat ++ (natToBits 32 w.walletId.toNat ++ (bytesToBits w.publicKey ++ pc.1)),
+      [] ++ ([] ++ ([] ++ pc.2))) := by
+    simp only [encWalletV4, eUint_of_range 32 _ hs.1 hs.2, eUint_of_range 32 _ hi.1 hi.2, eBytes_of 32 _ hk.1 hk.2, hp, Enc.cat]
+  have hlen : (natToBits 32 w.seqno.toNat ++ (natToBits 32 w.walletId.toNat ++ (bytesToBits w.publicKey ++ pc.1))).length = 321 := by
+    simp [natToBits_length, bytesToBits_length, hk.1, hp1]
+  have hr : (([] : List R) ++ ([] ++ ([] ++ pc.2))).length ≤ 1 := by simpa using hp2
+  have hser := cellOf_of_appends ops (appends_walletV4B w) he ⟨by rw [hlen]; omega, Nat.le_trans hr (by omega)⟩
+  exact ⟨_, he, hlen, hr, hser, by rw [Message.serializeWalletV4, hser]; exact ht _ _ (by rw [hlen]; omega) (Nat.le_trans hr (by omega))⟩
+
+theorem c15_wallet_v4_decodes (ops : CellOps R) (hl : ops.Lawful) (w : WalletV4 R) {ch : Chunk R} {c : R}
+    (h : encWalletV4 w = some ch) (hc : ops.make ch.1 ch.2 = some c) : decodeWalletV4 ops c = some w :=
+  decode_of_rt ops hl (rt_walletV4 w) h hc
+
+theorem c15_wallet_v4_own_parser (ops : CellOps R) (c : R) (w : WalletV4 R) (h : decodeWalletV4 ops c = some w) :
+    Message.deserializeWalletV4 ops c = some w := parse_of_ref ops ref_loadWalletV4 h
+
+/-! ### `HighloadWalletData` (finding F23: `serialize` drops `old_queries`) -/
+
+/-- `HighloadWalletData.serialize` never fails for fields in range, but what it writes is the encoding of the value
+WITH `old_queries` EMPTIED: 353 bits, no reference. -/
+theorem c15_highload_serialize (ops : CellOps R) (ht : ops.Total) (w : Highload R)
+    (hi : 0 ≤ w.walletId ∧ w.walletId < 2 ^ 32) (hc : 0 ≤ w.lastCleaned ∧ w.lastCleaned < 2 ^ 64)
+    (hk : w.publicKey.length = 32 ∧ Bytes.WF w.publicKey) :
+    ∃ ch : Chunk R, encHighload { w with oldQueries := none } = some ch ∧ ch.1.length = 353 ∧ ch.2.length = 0 ∧
+      Message.serializeHighload ops w = ops.make ch.1 ch.2 ∧ (Message.serializeHighload ops w).isSome := by
+  have he : encHighload { w with oldQueries := none } =
+      some (natToBits 32 w.walletId.toNat ++ (natToBits 64 w.lastCleaned.toNat ++ (bytesToBits w.publicKey ++ [false])),
+        ([] ++ ([] ++ ([] ++ [])) : List R)) := by
+    simp only [encHighload, eUint_of_range 32 _ hi.1 hi.2, eUint_of_range 64 _ hc.1 hc.2, eBytes_of 32 _ hk.1 hk.2,
+      eMaybeRef, eBool, Enc.cat]
+  have hlen : (natToBits 32 w.walletId.toNat ++ (natToBits 64 w.lastCleaned.toNat ++ (bytesToBits w.publicKey ++ [false]))).length = 353 := by
+    simp [natToBits_length, bytesToBits_length, hk.1]
+  have hser := cellOf_of_appends ops (appends_highloadB w) he ⟨by rw [hlen]; omega, by simp⟩
+  exact ⟨_, he, hlen, by simp, hser, by rw [Message.serializeHighload, hser]; exact ht _ _ (by rw [hlen]; omega) (by simp)⟩
+
+/-- the spec decoder inverts the spec encoder for every value, with or without old queries -/
+theorem c15_highload_spec_roundtrip (ops : CellOps R) (hl : ops.Lawful) (w : Highload R) {ch : Chunk R} {c : R}
+    (h : encHighload w = some ch) (hc : ops.make ch.1 ch.2 = some c) : decodeHighload ops c = some w :=
+  decode_of_rt ops hl (rt_highload w) h hc
+
+/-- the cell `HighloadWalletData.serialize` returns decodes to the value with `old_queries` emptied -/
+theorem c15_highload_decodes (ops : CellOps R) (hl : ops.Lawful) (ht : ops.Total) (w : Highload R)
+    (hi : 0 ≤ w.walletId ∧ w.walletId < 2 ^ 32) (hc : 0 ≤ w.lastCleaned ∧ w.lastCleaned < 2 ^ 64)
+    (hk : w.publicKey.length = 32 ∧ Bytes.WF w.publicKey) :
+    ∃ c, Message.serializeHighload ops w = some c ∧ decodeHighload ops c = some { w with oldQueries := none } := by
+  obtain ⟨ch, he, _, _, hser, hsome⟩ := c15_highload_serialize ops ht w hi hc hk
+  obtain ⟨c, hcell⟩ := Option.isSome_iff_exists.mp hsome
+  exact ⟨c, hcell, c15_highload_spec_roundtrip ops hl _ he (hser ▸ hcell)⟩
+
+/-- **F23, stated exactly**: the serialised cell denotes the value it was made from IF AND ONLY IF `old_queries` is
+empty.  (The full-strength statement -- `decodeHighload (serialize w) = some w` for every `w` in range -- is false for
+the library.) -/
+theorem c15_highload_round_trip_iff (ops : CellOps R) (hl : ops.Lawful) (ht : ops.Total) (w : Highload R)
+    (hi : 0 ≤ w.walletId ∧ w.walletId < 2 ^ 32) (hc : 0 ≤ w.lastCleaned ∧ w.lastCleaned < 2 ^ 64)
+    (hk : w.publicKey.length = 32 ∧ Bytes.WF w.publicKey) :
+    (∃ c, Message.serializeHighload ops w = some c ∧ decodeHighload ops c = some w) ↔ w.oldQueries = none := by
+  obtain ⟨c, hs, hd⟩ := c15_highload_decodes ops hl ht w hi hc hk
+  constructor
+  · rintro ⟨c', hs', hd'⟩
+    rw [hs] at hs'
+    cases hs'
+    rw [hd] at hd'
+    have := congrArg (fun o => o.map Highload.oldQueries) hd'
+    simpa using this.symm
+  · intro hq
+    refine ⟨c, hs, ?_⟩
+    rw [hd]
+    cases w
+    simp_all
+
+/-- `HighloadWalletData.deserialize` reads every valid cell as the spec decoder does (the dictionary as its root cell;
+its VALUES are then lost in `HashMap.parse`, because `WalletMessage.deserialize` is a stub -- see
+`c15_wallet_message_own_parser_stub`). -/
+theorem c15_highload_own_parser (ops : CellOps R) (c : R) (w : Highload R) (h : decodeHighload ops c = some w) :
+    Message.deserializeHighload ops c = some w := parse_of_ref ops ref_loadHighload h
+
+/-! ### `WalletMessage` (finding F23: `deserialize` is a stub) -/
+
+/-- `WalletMessage(send_mode, message).serialize()` with `send_mode` < 256 and a message within the bound of
+`c15_never_overflows` never fails and is `send_mode:uint8 message:^(Message Any)`, the reference holding one of the
+block.tlb encodings of the message. -/
+theorem c15_wallet_message_serialize (ops : CellOps R) (hl : ops.Lawful) (ht : ops.Total) (w : WalletMsg R)
+    (hmode : 0 ≤ w.sendMode ∧ w.sendMode < 256)
+    {ib : Bits} {ir : List R} (hinfo : encInfo w.message.info = some (ib, ir))
+    (hI : ib.length + (if w.message.init.isSome then 3 else 2) ≤ 1023)
+    (hinit : ∀ s, w.message.init = some s → (encStateInit s).isSome)
+    (hbody : w.message.body.1.length ≤ 1023 ∧ w.message.body.2.length ≤ 4) :
+    ∃ initRef bodyRef, ∃ ch : Chunk R, encWalletMsg ops w initRef bodyRef = some ch ∧ ch.1.length = 8 ∧ ch.2.length = 1 ∧
+      Message.serializeWalletMsg ops w = ops.make ch.1 ch.2 ∧ (Message.serializeWalletMsg ops w).isSome := by
+  obtain ⟨i, b, c, he, hs⟩ := serialize_cases ops hl ht w.message hinfo hI hinit hbody
+  have h1 := encWalletMsg_eq ops w hmode i b he
+  have h2 := serializeWalletMsg_eq ops w hmode hs
+  refine ⟨i, b, _, h1, by simp [natToBits_length], by simp, h2, ?_⟩
+  rw [h2]; exact ht _ _ (by simp [natToBits_length]) (by simp)
+
+/-- every spec encoding of a wallet message (either `Either` choice inside the referenced message) decodes to it -/
+theorem c15_wallet_message_decodes (ops : CellOps R) (hl : ops.Lawful) (w : WalletMsg R) (hwf : w.message.info.WF)
+    (initRef bodyRef : Bool) {ch : Chunk R} {c : R}
+    (h : encWalletMsg ops w initRef bodyRef = some ch) (hc : ops.make ch.1 ch.2 = some c) :
+    decodeWalletMsg ops c = some w :=
+  decode_of_rt ops hl (rt_walletMsg ops hl w hwf initRef bodyRef) h hc
+
+/-- **F23, stated exactly**: `WalletMessage.deserialize` returns Python `None` for every cell, so it agrees with the
+spec decoder on NO cell that is a wallet message.  (The full-strength statement
+`decodeWalletMsg ops c = some w → deserializeWalletMsg ops c = some (some w)` is false for the library.) -/
+theorem c15_wallet_message_own_parser_stub (ops : CellOps R) (c : R) :
+    Message.deserializeWalletMsg ops c = some none ∧
+      ∀ w, decodeWalletMsg ops c = some w → Message.deserializeWalletMsg ops c ≠ some (some w) := by
+  constructor
+  · rfl
+  · intro w _ h; simp [Message.deserializeWalletMsg] at h
+
+/-! ### `HashUpdate` -/
+
+/-- `HashUpdate(old, new).serialize()` with two 32-byte hashes never fails and is `#72 old_hash:bits256 new_hash:bits256` -/
+theorem c15_hash_update_serialize (ops : CellOps R) (ht : ops.Total) (h : HashUpd)
+    (ho : h.oldHash.length = 32 ∧ Bytes.WF h.oldHash) (hn : h.newHash.length = 32 ∧ Bytes.WF h.newHash) :
+    ∃ ch : Chunk R, encHashUpd h = some ch ∧ ch.1.length = 520 ∧ ch.2.length = 0 ∧
+      Message.serializeHashUpd ops h = ops.make ch.1 ch.2 ∧ (Message.serializeHashUpd ops h).isSome := by
+  have he : (encHashUpd h : Enc R) = some (bytesToBits [0x72] ++ (bytesToBits h.oldHash ++ bytesToBits h.newHash), [] ++ ([] ++ [])) := by
+    simp only [encHashUpd, eBytes_of 1 [0x72] rfl (by decide), eBytes_of 32 _ ho.1 ho.2, eBytes_of 32 _ hn.1 hn.2, Enc.cat]
+  have hlen : (bytesToBits [0x72] ++ (bytesToBits h.oldHash ++ bytesToBits h.newHash)).length = 520 := by
+    simp [bytesToBits_length, ho.1, hn.1]
+  have hser := cellOf_of_appends ops (appends_hashUpdateB h) he (by simp [hlen])
+  exact ⟨_, he, hlen, by simp, hser, by rw [Message.serializeHashUpd, hser]; exact ht _ _ (by simp [hlen]) (by simp)⟩
+
+theorem c15_hash_update_decodes (ops : CellOps R) (hl : ops.Lawful) (h : HashUpd) {ch : Chunk R} {c : R}
+    (he : encHashUpd h = some ch) (hc : ops.make ch.1 ch.2 = some c) : decodeHashUpd ops c = some h :=
+  decode_of_rt ops hl (rt_hashUpd h) he hc
+
+theorem c15_hash_update_own_parser (ops : CellOps R) (c : R) (h : HashUpd) (hd : decodeHashUpd ops c = some h) :
+    Message.deserializeHashUpd ops c = some h := parse_of_ref ops ref_loadHashUpdate hd
+
+/-! ### `NftItemData` -/
+
+/-- `NftItemData.serialize` is the cell of `index:uint64 collection:MsgAddress owner:MsgAddress content:^Cell` whenever
+the fields are in range (= the encoding exists) and it fits a cell; it fails exactly when it does not fit. -/
+theorem c15_nft_item_serialize (ops : CellOps R) (n : NftItem R) {ch : Chunk R} (h : encNftItem n = some ch) :
+    (ch.1.length ≤ 1023 → Message.serializeNftItem ops n = ops.make ch.1 ch.2) ∧
+    (¬ ch.1.length ≤ 1023 → Message.serializeNftItem ops n = none) ∧ ch.2.length = 1 := by
+  have hr : ch.2.length = 1 := by
+    have h1 : Enc.nrefs (encNftItem n) ≤ 1 :=
+      nrefs_cat_le (x := 0) (y := 1) (nrefs_eUint _ _) (nrefs_cat_le (x := 0) (y := 1) (nrefs_eAddr _)
+        (nrefs_cat_le (x := 0) (y := 1) (nrefs_eAddr _) (nrefs_eRef _)))
+    rw [(enc_some_sizes h).2] at h1
+    unfold encNftItem at h
+    obtain ⟨_, y1, _, hy1, rfl⟩ := Enc.cat_some h
+    obtain ⟨_, y2, _, hy2, rfl⟩ := Enc.cat_some hy1
+    obtain ⟨_, y3, _, hy3, rfl⟩ := Enc.cat_some hy2
+    simp only [eRef, Option.some.injEq] at hy3
+    subst hy3
+    simp only [List.length_append, List.length_cons, List.length_nil] at h1 ⊢
+    omega
+  refine ⟨fun hf => cellOf_of_appends ops (appends_nftItemB n) h ⟨hf, by omega⟩,
+    fun hf => cellOf_of_appends_none ops (appends_nftItemB n) h (fun hh => hf hh.1), hr⟩
+
+/-- with a collection and an owner that are not `addr_extern` (`addr_std`, with or without anycast, or `addr_none`)
+it always fits: at most 64 + 302 + 302 bits -/
+theorem c15_nft_item_never_overflows (ops : CellOps R) (ht : ops.Total) (n : NftItem R) {ch : Chunk R}
+    (h : encNftItem n = some ch) (hc : ∀ l v, n.collection ≠ Addr.ext l v) (ho : ∀ l v, n.owner ≠ Addr.ext l v) :
+    ch.1.length ≤ 668 ∧ (Message.serializeNftItem ops n).isSome := by
+  have hb : Enc.nbits (encNftItem n) ≤ 64 + (302 + (302 + 0)) :=
+    nbits_cat_le (nbits_eUint _ _) (nbits_cat_le (nbits_eAddr_nonext _ hc) (nbits_cat_le (nbits_eAddr_nonext _ ho) (nbits_eRef _)))
+  rw [(enc_some_sizes h).1] at hb
+  obtain ⟨h1, _, h3⟩ := c15_nft_item_serialize ops n h
+  refine ⟨by omega, ?_⟩
+  rw [h1 (by omega)]; exact ht _ _ (by omega) (by omega)
+
+theorem c15_nft_item_decodes (ops : CellOps R) (hl : ops.Lawful) (n : NftItem R) (hwf : n.WF) {ch : Chunk R} {c : R}
+    (h : encNftItem n = some ch) (hc : ops.make ch.1 ch.2 = some c) : decodeNftItem ops c = some n :=
+  decode_of_rt ops hl (rt_nftItem n hwf.1 hwf.2) h hc
+
+theorem c15_nft_item_own_parser (ops : CellOps R) (c : R) (n : NftItem R) (h : decodeNftItem ops c = some n) :
+    Message.deserializeNftItem ops c = some n := parse_of_ref ops ref_loadNftItem h
+
+/-! ### `NftItemSaleFees`, `NftItemSaleData` -/
+
+theorem c15_sale_fees_serialize (ops : CellOps R) (f : SaleFees) {ch : Chunk R} (h : encSaleFees f = some ch) :
+    (ch.1.length ≤ 1023 → Message.serializeSaleFees ops f = ops.make ch.1 ch.2) ∧
+    (¬ ch.1.length ≤ 1023 → Message.serializeSaleFees ops f = none) ∧ ch.2.length = 0 := by
+  have hr : ch.2.length = 0 := by
+    have h1 : Enc.nrefs (encSaleFees f : Enc R) ≤ 0 :=
+      nrefs_cat_le (x := 0) (y := 0) (nrefs_eAddr _) (nrefs_cat_le (x := 0) (y := 0) (nrefs_eGrams _)
+        (nrefs_cat_le (x := 0) (y := 0) (nrefs_eAddr _) (nrefs_eGrams _)))
+    rw [(enc_some_sizes h).2] at h1; omega
+  refine ⟨fun hf => cellOf_of_appends ops (appends_saleFeesB f) h ⟨hf, by omega⟩,
+    fun hf => cellOf_of_appends_none ops (appends_saleFeesB f) h (fun hh => hf hh.1), hr⟩
+
+/-- with fee addresses that are not `addr_extern` it always fits: at most 302 + 124 + 302 + 124 bits -/
+theorem c15_sale_fees_never_overflows (ops : CellOps R) (ht : ops.Total) (f : SaleFees) {ch : Chunk R}
+    (h : encSaleFees f = some ch) (ha : ∀ l v, f.marketplaceFeeAddress ≠ Addr.ext l v) (hb : ∀ l v, f.royaltyAddress ≠ Addr.ext l v) :
+    ch.1.length ≤ 852 ∧ (Message.serializeSaleFees ops f).isSome := by
+  have hbits : Enc.nbits (encSaleFees f : Enc R) ≤ 302 + (124 + (302 + 124)) :=
+    nbits_cat_le (nbits_eAddr_nonext _ ha) (nbits_cat_le (nbits_eGrams _) (nbits_cat_le (nbits_eAddr_nonext _ hb) (nbits_eGrams _)))
+  rw [(enc_some_sizes h).1] at hbits
+  obtain ⟨h1, _, h3⟩ := c15_sale_fees_serialize ops f h
+  refine ⟨by omega, ?_⟩
+  rw [h1 (by omega)]; exact ht _ _ (by omega) (by omega)
+
+theorem c15_sale_fees_decodes (ops : CellOps R) (hl : ops.Lawful) (f : SaleFees) (hwf : f.WF) {ch : Chunk R} {c : R}
+    (h : encSaleFees f = some ch) (hc : ops.make ch.1 ch.2 = some c) : decodeSaleFees ops c = some f :=
+  decode_of_rt ops hl (rt_saleFees f hwf) h hc
+
+theorem c15_sale_fees_own_parser (ops : CellOps R) (c : R) (f : SaleFees) (h : decodeSaleFees ops c = some f) :
+    Message.deserializeSaleFees ops c = some f := parse_of_ref ops ref_loadSaleFees h
+
+/-- `NftItemSaleData.serialize` is the cell of `is_complete:Bool created_at:uint32 marketplace nft nft_owner:MsgAddress
+full_price:Grams fees_cell:^NftItemSaleFees can_deploy_by_external:Bool` whenever that encoding exists (fields in range,
+the fees fit their own cell) and fits a cell. -/
+theorem c15_sale_data_serialize (ops : CellOps R) (s : SaleData) {ch : Chunk R} (h : encSaleData ops s = some ch)
+    (hfit : ch.1.length ≤ 1023 ∧ ch.2.length ≤ 4) : Message.serializeSaleData ops s = ops.make ch.1 ch.2 :=
+  serializeSaleData_eq ops s h hfit
+
+theorem c15_sale_data_decodes (ops : CellOps R) (hl : ops.Lawful) (s : SaleData) (hwf : s.WF) {ch : Chunk R} {c : R}
+    (h : encSaleData ops s = some ch) (hc : ops.make ch.1 ch.2 = some c) : decodeSaleData ops c = some s :=
+  decode_of_rt ops hl (rt_saleData ops hl s hwf) h hc
+
+theorem c15_sale_data_own_parser (ops : CellOps R) (c : R) (s : SaleData) (h : decodeSaleData ops c = some s) :
+    Message.deserializeSaleData ops c = some s := parse_of_ref ops (ref_loadSaleData ops) h
+
+/-! ### `Message X` proper: the strict reading -/
+
+/-- the strict reader returns only messages whose addresses are in the classes block.tlb names (`int_msg_info`: both
+`MsgAddressInt`; `ext_in_msg_info`: `src:MsgAddressExt dest:MsgAddressInt`; `ext_out_msg_info`: the converse), it agrees
+with the union-class reader, and the library's parser returns the same message -/
+theorem c15_strict_sound (ops : CellOps R) (c : R) (m : Msg R) (h : decodeMessageStrict ops c = some m) :
+    m.info.Conforms ∧ decodeMessage ops c = some m ∧ Message.deserialize ops c = some m := by
+  unfold decodeMessageStrict at h
+  obtain ⟨m', hm', hif⟩ := Option.bind_eq_some_iff.mp h
+  split at hif
+  · rename_i hc
+    cases hif
+    exact ⟨hc, hm', own_parser ops c _ hm'⟩
+  · simp at hif
+
+theorem c15_strict_complete (ops : CellOps R) (c : R) (m : Msg R) (hd : decodeMessage ops c = some m)
+    (hc : m.info.Conforms) : decodeMessageStrict ops c = some m := by
+  simp [decodeMessageStrict, hd, hc]
+
+/-- a message of `Message X` proper serialises (under the bound of `c15_never_overflows`) to a cell that the STRICT
+reader maps back to it -/
+theorem c15_strict_round_trip (ops : CellOps R) (hl : ops.Lawful) (ht : ops.Total) (m : Msg R) (hwf : m.info.WF)
+    (hconf : m.info.Conforms)
+    {ib : Bits} {ir : List R} (hinfo : encInfo m.info = some (ib, ir))
+    (hI : ib.length + (if m.init.isSome then 3 else 2) ≤ 1023)
+    (hinit : ∀ s, m.init = some s → (encStateInit s).isSome)
+    (hbody : m.body.1.length ≤ 1023 ∧ m.body.2.length ≤ 4) :
+    ∃ c, Message.serialize ops m = some c ∧ decodeMessageStrict ops c = some m := by
+  obtain ⟨c, hs, hd⟩ := c15_spec_decodes ops hl ht m hwf hinfo hI hinit hbody
+  exact ⟨c, hs, c15_strict_complete ops c m hd hconf⟩
+
+/-- what `Conforms` says, constructor by constructor -/
+theorem c15_conforms_iff (i : Info R) :
+    i.Conforms ↔ match i with
+      | .int _ _ _ src dest _ _ _ _ _ => (∃ a w h, src = Addr.std a w h) ∧ (∃ a w h, dest = Addr.std a w h)
+      | .extIn src dest _ => (src = Addr.none ∨ ∃ l v, src = Addr.ext l v) ∧ (∃ a w h, dest = Addr.std a w h)
+      | .extOut src dest _ _ => (∃ a w h, src = Addr.std a w h) ∧ (dest = Addr.none ∨ ∃ l v, dest = Addr.ext l v) := by
+  have hint : ∀ a : Addr, Addr.isInt a = true ↔ ∃ x w h, a = Addr.std x w h := by
+    intro a; cases a <;> simp [Addr.isInt]
+  have hext : ∀ a : Addr, Addr.isExt a = true ↔ (a = Addr.none ∨ ∃ l v, a = Addr.ext l v) := by
+    intro a; cases a <;> simp [Addr.isExt]
+  cases i <;> simp only [Info.Conforms, hint, hext]
 
 /-! ### non-vacuity and tightness on a concrete cell type -/
 
